@@ -604,11 +604,13 @@ class Subscription(BaseSubscription):
                 pstr = []
                 for val in tags:
                     if val:
-                        val = val.replace("'", "''")
+                        # the statement goes through sqlalchemy.text(): a ':' must not
+                        # start a bind parameter (nor be an unescaped "\:")
+                        val = val.replace("'", "''").replace(":", "\\:")
                         pstr.append(f"'{val}'")
                 if pstr:
                     pstr = ",".join(pstr)
-                    tagname = tagname.replace("'", "''")
+                    tagname = tagname.replace("'", "''").replace(":", "\\:")
                     subwhere.append(
                         f"id IN (SELECT id FROM tags WHERE name = '{tagname}' AND value IN ({pstr})) "
                     )
